@@ -1550,7 +1550,7 @@ func (ev *evaluator) runCountedFrame(fr0 *evalFrame, maxIter int) ([]interface{}
 	}
 	scalar := func(v interface{}) bool {
 		switch v.(type) {
-		case int64, string, bool, absPtr, float64, absStruct, absArray, absDate, absWeek, absOpaque:
+		case int64, string, bool, absPtr, float64, absStruct, absArray, absDate, absWeek, absOpaque, absCivil:
 			return true
 		}
 		return false
